@@ -88,6 +88,8 @@ class Lower:
             raise CUnsupported("C binary operator %s" % op)
         if k == "CallExpr":
             name = cfront.callee_name(n)
+            if not name:
+                raise CUnsupported("indirect call (line %s)" % n.get("line"))
             args = [self.expr(a) for a in inner[1:]]
             if name in MATH:
                 return MATH[name](*args)
@@ -223,6 +225,6 @@ def stmt_rhs_table(fn, symbols=None):
         if x.get("kind") == "BinaryOperator" and x.get("opcode") == "=":
             try:
                 out.append((cfront.render(x["inner"][0]), L.expr(x["inner"][1]), x))
-            except CUnsupported:
+            except (CUnsupported, TypeError, ValueError):
                 out.append((cfront.render(x["inner"][0]), None, x))
     return out
